@@ -11,6 +11,7 @@
 -/
 import Jawk.Lemmas.Fuel
 import Jawk.Lemmas.NoPanic
+import Jawk.Lemmas.Parents
 namespace Jawk.C05
 open Jawk Fuel NoPanic
 
@@ -68,6 +69,16 @@ theorem eval_never_panics_pure (orc : Oracles) (fuel : Nat) (e : Expr) (ctx : Ct
     (he : AllModelled e) (hp : NoParseSelection e) (ho : NoOracleCalls e)
     (hd : ∀ n d, (n, d) ∈ ctx.defs → AllModelled d ∧ NoParseSelection d ∧ NoOracleCalls d) :
     NoPanic (eval orc fuel e ctx) := eval_no_panic_pure orc fuel e ctx he hp ho hd
+
+/-! ### carets beyond the chain of enclosing inputs fall back to the current input -/
+
+/-- `^…^.path` with ANY number of carets, at any nesting depth, evaluates — to the path applied to the enclosing
+input that many levels up, and to the current input when there are fewer enclosing inputs than carets -/
+theorem carets_never_fail (orc : Oracles) (fuel parents : Nat) (steps : List Step) (ctx : Ctx) :
+    eval orc (fuel + 1) (.extract parents steps) ctx = .ok (extractSteps steps (ctx.parentInput parents)) ∧
+    (ctx.parents.length < parents → ctx.parentInput parents = ctx.input) ∧
+    (ctx.parentInput parents = ctx.input ∨ ctx.parentInput parents ∈ ctx.parents) :=
+  ⟨Parents.eval_extract orc fuel parents steps ctx, Parents.parentInput_excess ctx parents, Parents.parentInput_mem ctx parents⟩
 
 /-! ### unbounded recursion: only through macros (known finding F9) -/
 
